@@ -64,10 +64,13 @@ def oblige_equal(run, name, a, b, kind="post", cls="input", props=None, meta=Non
         rng = list(assuming)
         for ax in a.axes:
             if ax.masked:
-                j, i = sym.fresh_int("mj"), sym.fresh_int("mi")
                 m = ax.mask
-                rng.append((j >= 0) & (j < m.axes[0].size) & (i >= 0) & (i < m.axes[1].size) & sbool(m.at(j, i)))
-                comps += [j, i]
+                cs = [sym.fresh_int("m%d" % q) for q in range(m.ndim)]
+                cond = sbool(m.at(*cs))
+                for q, cq in enumerate(cs):
+                    cond = cond & (cq >= 0) & (cq < m.axes[q].size)
+                rng.append(cond)
+                comps += cs
             else:
                 k = sym.fresh_int("ix")
                 rng.append((k >= 0) & (k < ax.size))
